@@ -24,6 +24,7 @@ for d in sorted(os.listdir(os.path.join(V, "seeded"))):
         p = subprocess.run([os.path.join(V, "check"), prop, "--tier", "quick"], cwd=V, capture_output=True, text=True, timeout=3600)
     finally:
         subprocess.run(["git", "-C", "/repo", "checkout", "--", "."], check=True)
+        subprocess.run(["git", "-C", "/repo", "clean", "-fdq"], check=True)       # files a seeded change ADDS
         if saved is not None:
             open(ev, "w").write(saved)
     viol = [l for l in p.stdout.splitlines() if l.startswith("VIOLATION")]
